@@ -24,6 +24,7 @@ ASSUMPTIONS = [
 REQUIRED_CLASSES = ["nontrivial", "accel_zero", "same_sign", "decel_no_reversal", "reversal_before_tick1",
                     "kstar=1", "r1_zero", "reverses", "reverses_before_first_step",
                     "reverses_after_steps", "boundary_landing", "legacy", "cannot_move", "loop_validated",
+                    "reverses_after_2^21_ticks",
                     "explicit_accumulator", "t>2^20"]
 QUICK_SHARDS = 8
 
@@ -77,6 +78,8 @@ def body(ctx, case):
             classes.add("explicit_accumulator")
         if t > 1 << 20:
             classes.add("t>2^20")
+        if info["kstar"] is not None and info["reverses"] and info["kstar"] > 1 << 21:
+            classes.add("reverses_after_2^21_ticks")
     ctx.record((steps, rate, accel, accum), classes, nontrivial)
 
     # calculate_lm must not depend on what an earlier call (the library's own predictors leave 30 digits behind)
@@ -142,7 +145,7 @@ def cases(draw):
 
 @st.composite
 def moves(draw):
-    mode = draw(st.sampled_from(["const", "same", "same", "oppose", "oppose", "oppose", "oppose_steps",
+    mode = draw(st.sampled_from(["const", "same", "same", "oppose", "oppose", "oppose", "oppose_steps", "long_turn",
                                  "oppose_steps", "kstar1", "kstar1", "r1zero", "pre_tick1", "tiny",
                                  "tiny", "tiny", "cannot"]))
     if mode == "cannot":
@@ -182,6 +185,14 @@ def moves(draw):
         r_mag = _mag(draw, 1, M - 1)
         a_mag = _mag(draw, r_mag + 1, M)
         r1, accel = sign * r_mag, -sign * a_mag
+    elif mode == "long_turn":
+        # a gentle deceleration that turns round only after millions of ticks (and millions of steps): the outbound
+        # leg's accumulator total is then far beyond 2^53
+        a_mag = draw(st.integers(1, 1000))
+        k_turn = draw(st.integers(1 << 21, 1 << 24))
+        r_mag = min(M - a_mag, a_mag * k_turn + draw(st.integers(0, a_mag)))
+        r1, accel = sign * r_mag, -sign * a_mag
+        Tt = max(Tt, min(2 * (r_mag // a_mag), r_mag // a_mag + draw(st.integers(1, 1 << 22))))
     elif mode == "oppose_steps":
         # choose |accel| so that about s steps are taken before the reversal
         r_mag = _mag(draw, 1 << 16, M)
@@ -224,6 +235,18 @@ def moves(draw):
         total = fw.lm_steps_at(rate, accel, acc0, Tt, kstar)
 
     landing = draw(st.integers(0, 5)) == 0
+    turn_landing = (not landing) and kstar is not None and 1 <= kstar < Tt and \
+        draw(st.integers(0, 3 if mode != "long_turn" else 1)) == 0
+    if turn_landing:
+        # choose an explicit accumulator so that the unreduced total AT THE TURN-ROUND TICK sits at a step boundary
+        # +-3: the count of steps made before the reversal then hangs on the last few accumulator counts, however
+        # many million ticks the outbound leg took
+        delta = draw(st.integers(-3, 3))
+        base = 0 if accum == "clear" else accum
+        resid = fw.lt_total(rate, accel, kstar, base) % W
+        accum = (base - resid + delta) % W
+        acc0 = accum
+        total = fw.lm_steps_at(rate, accel, acc0, Tt, kstar)
     if landing and total > 0:
         # choose an explicit accumulator so that the unreduced total at Tt sits at a step boundary +-2
         delta = draw(st.integers(-2, 2))
